@@ -111,7 +111,7 @@ theorem step_cancelled {b : Beh} {s t : State} {c : Choice} (hs : step b s c = s
   · cases c with
     | caller p => rw [callerStep_cancelled hs]; exact hc
     | runner => rw [runnerStep_cancelled hs]; exact hc
-    | cancel => simp [hc] at hs
+    | cancel => simp_all
 
 theorem live_step {b : Beh} {F : Nat} {s t : State} {c : Choice} (h : Live b F s) (hs : step b s c = some t) :
     Live b F t := by
@@ -125,5 +125,374 @@ theorem live_stepD {b : Beh} {F : Nat} {s : State} (c : Choice) (h : Live b F s)
   cases hs : step b s c with
   | none => simpa using h
   | some t => simpa using live_step h hs
+
+theorem caller_enabled_step {s : State} (p : Bool) (h : callerEn s = true) :
+    ∃ t, callerStep s p = some t ∧ crank t.cpc < crank s.cpc := by
+  obtain ⟨lockHeld, chan, aborting, cancelled, cpc, rpc, sends, recvs, runOut, abortCalled, sa, ia⟩ := s
+  cases cpc <;> cases chan <;> cases cancelled <;> cases p <;> cases lockHeld <;>
+    simp_all [callerEn, callerStep, recvInto, crank]
+
+theorem caller_disabled_step {s : State} (p : Bool) (h : callerEn s = false) : callerStep s p = none := by
+  obtain ⟨lockHeld, chan, aborting, cancelled, cpc, rpc, sends, recvs, runOut, abortCalled, sa, ia⟩ := s
+  cases cpc <;> cases chan <;> cases cancelled <;> cases p <;> cases lockHeld <;>
+    simp_all [callerEn, callerStep]
+
+theorem runnerStep_cpc {b : Beh} {s t : State} (hs : runnerStep b s = some t) :
+    t.cpc = s.cpc ∧ t.lockHeld = s.lockHeld ∧ (s.chan.isSome = true → t.chan.isSome = true) := by
+  unfold runnerStep at hs
+  repeat' split at hs
+  all_goals first
+    | (simp at hs; done)
+    | (simp only [Option.some.injEq] at hs; subst hs; simp only [tick]; split <;> simp_all)
+
+theorem runner_keeps_callerEn {b : Beh} {s t : State} (hs : runnerStep b s = some t) (h : callerEn s = true) :
+    callerEn t = true := by
+  obtain ⟨h1, h2, h3⟩ := runnerStep_cpc hs
+  have h4 := runnerStep_cancelled hs
+  unfold callerEn at *
+  rw [h1, h2, h4]
+  cases hc : s.cpc <;> simp_all
+  rcases h with h | h
+  · exact Or.inl h
+  · exact Or.inr (h3 h)
+
+
+theorem le_finish {b : Beh} {i F : Nat} {o : Outcome} (hi : ReachesInstr b i) (hF : FinishesAt b F o) : i ≤ F := by
+  apply Nat.le_of_not_lt
+  intro hlt
+  have := hi F hlt
+  rw [hF.2] at this
+  cases this
+
+theorem lt_finish {b : Beh} {i F : Nat} {o : Outcome} (hi : ReachesInstr b i) (hc : b i = .cont)
+    (hF : FinishesAt b F o) : i < F := by
+  have h1 := le_finish hi hF
+  rcases Nat.lt_or_eq_of_le h1 with h | h
+  · exact h
+  · subst h; rw [hF.2] at hc; cases hc
+
+theorem runner_progress_waiting {b : Beh} {F : Nat} {s : State} (h : Live b F s) (hd : callerEn s = false)
+    (hw : s.cpc = .waiting) : ∃ t, runnerStep b s = some t ∧ rr F t < rr F s := by
+  obtain ⟨⟨h1, h2, h3, h4, h5, h6, h7, h8, h9, h10, h11, h12, h13, h14, h15, h16, h17, h18, h19⟩, hnf, hends⟩ := h
+  obtain ⟨lockHeld, chan, aborting, cancelled, cpc, rpc, sends, recvs, runOut, abortCalled, sa, ia⟩ := s
+  simp only at hw
+  subst hw
+  simp [callerEn] at hd
+  obtain ⟨hd1, hd2⟩ := hd
+  subst hd1 hd2
+  simp at hends
+  obtain ⟨o, hF⟩ := hends
+  have hab : abortCalled = false := by simpa [aborted] using h7
+  have hag : aborting = false := by
+    cases aborting
+    · rfl
+    · simp [hab] at h8
+  subst hab hag
+  cases rpc with
+  | notStarted => simp [preGo] at h2
+  | done => simp [received] at h6
+  | crashed => exact absurd (h13 rfl) hnf
+  | spawned => simp [runnerStep, tick, rr]
+  | poll i =>
+    have := le_finish (h11 i (Or.inl rfl)) hF
+    simp [runnerStep, tick, rr]; omega
+  | exec i =>
+    have hi := h11 i (Or.inr rfl)
+    cases hb : b i with
+    | cont =>
+      have := lt_finish hi hb hF
+      simp [runnerStep, tick, rr, hb]
+      try omega
+    | fin o' =>
+      cases o' with
+      | fatal => exact absurd ⟨i, hi, hb⟩ hnf
+      | ok => simp [runnerStep, tick, rr, hb]
+      | err => simp [runnerStep, tick, rr, hb]
+      | goPanic => simp [runnerStep, tick, rr, hb]
+  | ranOut m => simp [runnerStep, tick, rr]
+  | recovering => simp [runnerStep, tick, rr]
+  | sending m => simp [runnerStep, tick, rr]
+
+theorem runner_progress_draining {b : Beh} {F : Nat} {s : State} (h : Live b F s) (hd : callerEn s = false)
+    (hw : s.cpc = .draining) : ∃ t, runnerStep b s = some t ∧ rr F t < rr F s := by
+  obtain ⟨⟨h1, h2, h3, h4, h5, h6, h7, h8, h9, h10, h11, h12, h13, h14, h15, h16, h17, h18, h19⟩, hnf, hends⟩ := h
+  obtain ⟨lockHeld, chan, aborting, cancelled, cpc, rpc, sends, recvs, runOut, abortCalled, sa, ia⟩ := s
+  simp only at hw
+  subst hw
+  simp [callerEn] at hd
+  subst hd
+  have hab : abortCalled = true := by simpa [aborted] using h7
+  subst hab
+  cases rpc with
+  | notStarted => simp [preGo] at h2
+  | done => simp [received] at h6
+  | crashed => exact absurd (h13 rfl) hnf
+  | spawned =>
+    have hag : aborting = true := by simpa [inLoop] using h10
+    subst hag
+    simp [runnerStep, tick, rr]
+  | poll i =>
+    have hag : aborting = true := by simpa [inLoop] using h10
+    subst hag
+    simp [runnerStep, tick, rr]
+  | exec i =>
+    have hag : aborting = true := by simpa [inLoop] using h10
+    subst hag
+    have hi := h11 i (Or.inr rfl)
+    cases hb : b i with
+    | cont => simp [runnerStep, tick, rr, hb]
+    | fin o' =>
+      cases o' with
+      | fatal => exact absurd ⟨i, hi, hb⟩ hnf
+      | ok => simp [runnerStep, tick, rr, hb]
+      | err => simp [runnerStep, tick, rr, hb]
+      | goPanic => simp [runnerStep, tick, rr, hb]
+  | ranOut m => simp [runnerStep, tick, rr]
+  | recovering => simp [runnerStep, tick, rr]
+  | sending m => simp [runnerStep, tick, rr]
+
+
+def Returned (s : State) : Prop := ∃ r, s.cpc = .returned r
+
+theorem peel {b : Beh} {s : State} {σ : Nat → Choice}
+    (h : ∃ n, Returned (run b (shift σ 1) (stepD b s (σ 0)) n)) : ∃ n, Returned (run b σ s n) := by
+  obtain ⟨n, hn⟩ := h
+  exact ⟨n + 1, by rw [run_succ_shift]; exact hn⟩
+
+theorem live_not_crashed {b : Beh} {F : Nat} {s : State} (h : Live b F s) : s.rpc ≠ .crashed :=
+  fun hc => h.noFatal (h.inv.crashedFatal hc)
+
+/-- A step of another agent neither disables the caller nor moves it. -/
+theorem other_keeps {b : Beh} {F : Nat} {s : State} (h : Live b F s) (he : callerEn s = true) (c : Choice)
+    (hc : c.isCaller = false) : (stepD b s c).cpc = s.cpc ∧ callerEn (stepD b s c) = true := by
+  unfold stepD step
+  rw [if_neg (live_not_crashed h)]
+  cases c with
+  | caller p => simp [Choice.isCaller] at hc
+  | runner =>
+    simp only
+    cases hs : runnerStep b s with
+    | none => simp [he]
+    | some t => simp; exact ⟨(runnerStep_cpc hs).1, runner_keeps_callerEn hs he⟩
+  | cancel =>
+    simp only
+    split
+    · simp [he]
+    · simp
+      unfold callerEn at *
+      cases hcp : s.cpc <;> simp_all
+
+theorem caller_moves {b : Beh} {F : Nat} {s : State} (h : Live b F s) (he : callerEn s = true) (c : Choice)
+    (hc : c.isCaller = true) : crank (stepD b s c).cpc < crank s.cpc := by
+  unfold stepD step
+  rw [if_neg (live_not_crashed h)]
+  cases c with
+  | caller p =>
+    obtain ⟨t, ht, hlt⟩ := caller_enabled_step p he
+    simp [ht, hlt]
+  | runner => simp [Choice.isCaller] at hc
+  | cancel => simp [Choice.isCaller] at hc
+
+def Eventually (b : Beh) (s : State) : Prop := ∀ σ, Fair σ → ∃ n, Returned (run b σ s n)
+
+/-- The caller is enabled: whenever the scheduler next picks it, its rank drops. -/
+theorem enabled_case {b : Beh} {F : Nat} (c : Nat)
+    (IH : ∀ s, Live b F s → crank s.cpc < c → Eventually b s) :
+    ∀ m s σ, Live b F s → crank s.cpc = c → callerEn s = true → Fair σ → (σ m).isCaller = true →
+      ∃ n, Returned (run b σ s n) := by
+  intro m
+  induction m with
+  | zero =>
+    intro s σ hl hc he hf hm
+    apply peel
+    exact IH _ (live_stepD _ hl) (by rw [← hc]; exact caller_moves hl he _ hm) _ (fair_shift hf 1)
+  | succ m ih =>
+    intro s σ hl hc he hf hm
+    apply peel
+    cases h0 : (σ 0).isCaller with
+    | true => exact IH _ (live_stepD _ hl) (by rw [← hc]; exact caller_moves hl he _ h0) _ (fair_shift hf 1)
+    | false =>
+      obtain ⟨h1, h2⟩ := other_keeps hl he (σ 0) h0
+      exact ih _ _ (live_stepD _ hl) (by rw [h1]; exact hc) h2 (fair_shift hf 1)
+        (by simp only [shift]; rw [show 1 + m = m + 1 by omega]; exact hm)
+
+/-- The measure used while the caller is blocked. -/
+def blockedMeasure (F : Nat) (s : State) : Nat := rr F s + (if s.cancelled then 0 else 1)
+
+/-- While the caller is blocked (at the select with nothing ready, or in `<-ch`), any choice either
+stutters (and is not the runner) or keeps the caller's pc and lowers the measure. -/
+theorem blocked_step {b : Beh} {F : Nat} {s : State} (hl : Live b F s) (hd : callerEn s = false)
+    (hw : s.cpc = .waiting ∨ s.cpc = .draining) (c : Choice) :
+    (stepD b s c = s ∧ c ≠ .runner) ∨
+    ((stepD b s c).cpc = s.cpc ∧ blockedMeasure F (stepD b s c) < blockedMeasure F s) := by
+  unfold stepD step
+  rw [if_neg (live_not_crashed hl)]
+  cases c with
+  | caller p => left; simp [caller_disabled_step p hd]
+  | runner =>
+    right
+    have ⟨t, ht, hlt⟩ : ∃ t, runnerStep b s = some t ∧ rr F t < rr F s := by
+      rcases hw with hw | hw
+      · exact runner_progress_waiting hl hd hw
+      · exact runner_progress_draining hl hd hw
+    simp only [ht, Option.getD_some]
+    refine ⟨(runnerStep_cpc ht).1, ?_⟩
+    unfold blockedMeasure
+    rw [runnerStep_cancelled ht]
+    omega
+  | cancel =>
+    simp only
+    cases hc : s.cancelled with
+    | true => left; simp
+    | false =>
+      right
+      simp [blockedMeasure, hc, rr]
+
+/-- If the caller is disabled and has not returned it is blocked at the select or in `<-ch`. -/
+theorem disabled_blocked {b : Beh} {s : State} (hi : Inv b s) (hd : callerEn s = false)
+    (hr : ¬ Returned s) : s.cpc = .waiting ∨ s.cpc = .draining := by
+  have hlock := hi.lock
+  unfold callerEn at hd
+  cases hc : s.cpc with
+  | start => rw [hc] at hlock hd; simp [holdsLock] at hlock; simp [hlock] at hd
+  | locked => simp [hc] at hd
+  | waiting => exact Or.inl rfl
+  | ctxTaken => simp [hc] at hd
+  | draining => exact Or.inr rfl
+  | unlocking r => simp [hc] at hd
+  | returned r => exact absurd ⟨r, hc⟩ hr
+
+theorem blocked_case {b : Beh} {F : Nat} (c : Nat)
+    (EN : ∀ s σ, Live b F s → crank s.cpc = c → callerEn s = true → Fair σ → ∃ n, Returned (run b σ s n)) :
+    ∀ k s, Live b F s → crank s.cpc = c → callerEn s = false → ¬ Returned s → blockedMeasure F s ≤ k →
+      Eventually b s := by
+  intro k
+  induction k with
+  | zero =>
+    -- measure 0: the runner is enabled and would lower it, impossible
+    intro s hl hc hd hr hk σ hf
+    have hw := disabled_blocked hl.inv hd hr
+    rcases blocked_step hl hd hw .runner with h | h
+    · exact absurd rfl h.2
+    · omega
+  | succ k ihk =>
+    intro s hl hc hd hr hk σ hf
+    have hw := disabled_blocked hl.inv hd hr
+    -- the runner is chosen at some time m; induction on m over the stutter steps before it
+    obtain ⟨m0, _, hm0⟩ := hf.2 0
+    suffices H : ∀ m σ, Fair σ → σ m = .runner → ∃ n, Returned (run b σ s n) from H m0 σ hf hm0
+    intro m
+    induction m with
+    | zero =>
+      intro σ hf hm
+      apply peel
+      rcases blocked_step hl hd hw (σ 0) with h | h
+      · exact absurd hm h.2
+      · have hl' := live_stepD (σ 0) hl
+        have hc' : crank (stepD b s (σ 0)).cpc = c := by rw [h.1]; exact hc
+        cases he : callerEn (stepD b s (σ 0)) with
+        | true => exact EN _ _ hl' hc' he (fair_shift hf 1)
+        | false =>
+          have hr' : ¬ Returned (stepD b s (σ 0)) := by
+            intro ⟨r, hr'⟩; rw [h.1] at hr'; exact hr ⟨r, hr'⟩
+          exact ihk _ hl' hc' he hr' (by omega) _ (fair_shift hf 1)
+    | succ m ihm =>
+      intro σ hf hm
+      apply peel
+      rcases blocked_step hl hd hw (σ 0) with h | h
+      · rw [h.1]
+        exact ihm _ (fair_shift hf 1) (by simp only [shift]; rw [show 1 + m = m + 1 by omega]; exact hm)
+      · have hl' := live_stepD (σ 0) hl
+        have hc' : crank (stepD b s (σ 0)).cpc = c := by rw [h.1]; exact hc
+        cases he : callerEn (stepD b s (σ 0)) with
+        | true => exact EN _ _ hl' hc' he (fair_shift hf 1)
+        | false =>
+          have hr' : ¬ Returned (stepD b s (σ 0)) := by
+            intro ⟨r, hr'⟩; rw [h.1] at hr'; exact hr ⟨r, hr'⟩
+          exact ihk _ hl' hc' he hr' (by omega) _ (fair_shift hf 1)
+
+/-- Progress: from every state satisfying the invariant, if the behaviour cannot reach a Go-fatal
+condition and either the context is cancelled or the program terminates, every fair schedule makes
+`RunContext` return. -/
+theorem eventually_returns {b : Beh} {F : Nat} : ∀ c s, Live b F s → crank s.cpc = c → Eventually b s := by
+  intro c
+  induction c using Nat.strongRecOn with
+  | _ c IH =>
+    intro s hl hc
+    have EN : ∀ s σ, Live b F s → crank s.cpc = c → callerEn s = true → Fair σ →
+        ∃ n, Returned (run b σ s n) := by
+      intro s σ hl hc he hf
+      obtain ⟨m, _, hm⟩ := hf.1 0
+      exact enabled_case c (fun s hl hlt => IH _ hlt s hl rfl) m s σ hl hc he hf hm
+    intro σ hf
+    cases he : callerEn s with
+    | true => exact EN s σ hl hc he hf
+    | false =>
+      by_cases hr : Returned s
+      · exact ⟨0, hr⟩
+      · exact blocked_case c EN _ s hl hc he hr (Nat.le_refl _) σ hf
+
+
+theorem run_add (b : Beh) (σ : Nat → Choice) (s : State) (k n : Nat) :
+    run b σ s (k + n) = run b (shift σ k) (run b σ s k) n := by
+  induction n with
+  | zero => rfl
+  | succ n ih =>
+    rw [← Nat.add_assoc, run, ih, run]
+    rfl
+
+/-- Everything that holds once the caller has returned. -/
+theorem returned_facts {b : Beh} {s : State} {r : Ret} (h : Inv b s) (hr : s.cpc = .returned r) :
+    s.lockHeld = false ∧ s.rpc = .done ∧ s.sends = 1 ∧ s.recvs = 1 ∧ s.chan = none ∧
+    (r = .ctxErr → s.cancelled = true ∧ s.abortCalled = true) ∧
+    (∀ m, r = .res m → s.abortCalled = false ∧ ∃ o i, FinishesAt b i o ∧ o.msg = m ∧ s.runOut = some o) := by
+  have hdone : s.rpc = .done := h.recvDone (by rw [hr]; rfl)
+  have hchan : s.chan = none := by
+    cases hc : s.chan with
+    | none => rfl
+    | some m =>
+      have := h.chanFull.mp (by rw [hc]; rfl)
+      rw [hr] at this
+      simp [received] at this
+  refine ⟨by rw [h.lock, hr]; rfl, hdone, by rw [h.sends, hdone]; rfl, by rw [h.recvs, hr]; rfl, hchan, ?_, ?_⟩
+  · intro hre
+    subst hre
+    exact ⟨h.ctx (by rw [hr]; rfl), by rw [h.abortCalled, hr]; rfl⟩
+  · intro m hre
+    subst hre
+    obtain ⟨o, ho, hm⟩ := h.resRet m (Or.inr hr)
+    obtain ⟨i, hi⟩ := h.runOutFin o ho
+    exact ⟨by rw [h.abortCalled, hr]; rfl, o, i, hi, hm, ho⟩
+
+theorem step_not_cancel_cancelled {b : Beh} {s t : State} {c : Choice} (hs : step b s c = some t)
+    (hc : c ≠ .cancel) : t.cancelled = s.cancelled := by
+  unfold step at hs
+  split at hs
+  · simp at hs
+  · cases c with
+    | caller p => exact callerStep_cancelled hs
+    | runner => exact runnerStep_cancelled hs
+    | cancel => exact absurd rfl hc
+
+theorem run_never_cancel {b : Beh} {σ : Nat → Choice} {s : State} (hσ : ∀ n, σ n ≠ .cancel) (n : Nat) :
+    (run b σ s n).cancelled = s.cancelled := by
+  induction n with
+  | zero => rfl
+  | succ n ih =>
+    rw [run]
+    unfold stepD
+    cases hs : step b (run b σ s n) (σ n) with
+    | none => simpa using ih
+    | some t => simp; rw [step_not_cancel_cancelled hs (hσ n)]; exact ih
+
+theorem finishesAt_unique {b : Beh} {i j : Nat} {o o' : Outcome} (h : FinishesAt b i o) (h' : FinishesAt b j o') :
+    i = j ∧ o = o' := by
+  have h1 := le_finish h.1 h'
+  have h2 := le_finish h'.1 h
+  have : i = j := Nat.le_antisymm h1 h2
+  subst this
+  have := h.2.symm.trans h'.2
+  cases this
+  exact ⟨rfl, rfl⟩
 
 end Tengo.Proofs.Conc
